@@ -43,6 +43,8 @@ type Variant struct {
 	// Context control ops (pause/start/kill/update by consumer and stranger), bad responses
 	ControlOps bool
 	Withdraw   bool
+	// GovOps: governance lowers the maximum request timeout below the timeout of contexts that already exist
+	GovOps bool
 	// InitialHeight of the chain (0 = 1)
 	InitialHeight int64
 }
@@ -88,7 +90,10 @@ var tmpls = map[string]tmpl{
 	// a repeated context whose total is a single batch: everything that happens after that batch happens at the
 	// boundary "below its total" (pause / start around the only batch's expiry)
 	"rep1": {name: "rep1", consumer: "U", providers: []string{"P1"}, timeout: 2, repeated: true, freq: 2, total: 1},
-	"mod":  {name: "mod", consumer: "U", providers: []string{"P1", "P2"}, timeout: 2, repeated: true, freq: 2, total: 2, module: true, threshold: 2},
+	// the poor consumer (130) addresses two providers whose discounted prices add up to 131: he can pay for the
+	// first request of a batch but not for the batch
+	"poorpair": {name: "poorpair", consumer: "V", providers: []string{"P1", "P3"}, timeout: 4, repeated: true, freq: 5, total: -1},
+	"mod":      {name: "mod", consumer: "U", providers: []string{"P1", "P2"}, timeout: 2, repeated: true, freq: 2, total: 2, module: true, threshold: 2},
 }
 
 type mctx struct {
@@ -338,6 +343,9 @@ func (d *Driver) Enabled(e *mc.Env, s *mc.State) []mc.Op {
 				add("!respond-again("+label+")", opData{kind: "respond", req: r.ID, by: r.Provider, out: true})
 			}
 		}
+	}
+	if d.V.GovOps && e.Service.GetParams(s.Ctx).MaxRequestTimeout > 2 {
+		add("gov:max-request-timeout(2)", opData{kind: "gov-timeout", n: 2})
 	}
 	// jump to the next due height
 	if h := d.nextDue(e, s); h > s.Ctx.BlockHeight()+1 {
@@ -642,6 +650,12 @@ func (d *Driver) apply(e *mc.Env, s *mc.State, op mc.Op) []mc.Finding {
 		if coinsBig(post.deposits[od.prov]).Cmp(wantDep) != 0 {
 			fs = append(fs, mc.F("C07/deposit-move-differs/"+od.kind+"/recorded", "%s: recorded deposit %s, expected %s", op.Name, post.deposits[od.prov], wantDep))
 		}
+		return fs
+	case "gov-timeout":
+		// a parameter change does not touch existing contexts: their requests keep the context's own timeout
+		p := e.Service.GetParams(s.Ctx)
+		p.MaxRequestTimeout = od.n
+		s.Deliver(e, op.Name, &svctypes.MsgUpdateParams{Authority: mc.Authority().String(), Params: p})
 		return fs
 	case "pause", "start", "kill", "updatectx":
 		c := m.ctx(od.ctx)
@@ -976,6 +990,8 @@ func Parts(mode string) func() []mc.Part {
 			return []mc.Part{
 				mc.ExplorePartC("fees", New(Variant{Name: "fees", Mode: mode, Tmpl: []string{"one", "rep", "poor"}, Withdraw: true}), 8, 10, true, rule, conf),
 				mc.ExplorePartC("deposits", New(Variant{Name: "deposits", Mode: mode, Tmpl: []string{"one"}, BindingOps: true}), 7, 9, true, rule, conf),
+				// a consumer who can pay for part of a batch only: nothing may be charged for requests that are not issued
+				mc.ExplorePart("fees-partial-funds", New(Variant{Name: "fees-partial-funds", Mode: mode, Tmpl: []string{"poorpair", "poor"}}), 6, 8, true, rule),
 			}
 		}
 		if mode == "C13" {
@@ -994,6 +1010,8 @@ func Parts(mode string) func() []mc.Part {
 			mc.ExplorePart("double-expiry", New(Variant{Name: "double-expiry", Mode: mode, Tmpl: []string{"one", "poor"}}), 6, 8, true, rule),
 			// heights are the keys of the batch queues: batches and expirations of this chain fall on 254..260
 			mc.ExplorePart("schedule-at-height-252", New(Variant{Name: "schedule-at-height-252", Mode: mode, Tmpl: []string{"rep", "one"}, InitialHeight: 252}), 8, 10, true, rule),
+			// governance lowers the maximum request timeout below the timeout of a context that already exists
+			mc.ExplorePart("outcomes-params-change", New(Variant{Name: "outcomes-params-change", Mode: mode, Tmpl: []string{"rep"}, GovOps: true}), 7, 9, true, rule),
 			// a repeated context of one batch in total, with the consumer's control operations: pauses and starts around
 			// the expiry of the last batch ("while running and below its total")
 			mc.ExplorePart("total-boundary", New(Variant{Name: "total-boundary", Mode: mode, Tmpl: []string{"rep1"}, ControlOps: true}), 7, 10, true, rule),
